@@ -228,7 +228,7 @@ def check_tree(tree, spellings, env_rows, export_envs=99, with_model=False):
         for tg in tags:
             if tg.startswith('outside:'):
                 labels.add(tg)
-    pctpct = any(n[0] == 'pct' and n[1][0] == 'pct' for n in T.walk(tree))
+    pctpct = '%%' in _strip_quoted(T.canon(tree))  # x%% (also -x%% from (-(x%))%) is printed but not re-parsed: not asserted
     n_eval = 0
     seen_inputs, seen_values, exports = {}, {}, {}
 
